@@ -12,12 +12,19 @@ namespace Ldk.Chan
     this revoke_and_ack was already owed (`raaSent < needRaa`); otherwise the batch goes first
     (`resend_order = CommitmentFirst`, set in `commitment_signed`);
   * a batch removes each HTLC at most once;
-  * new HTLCs are covered by the sender's balance net of its pending outbound HTLCs. -/
+  * new HTLCs are covered by the sender's balance net of its pending outbound HTLCs that still count
+    against it (`liveSum`: all but the FAILED removals already signed away — those are in no commitment
+    and never subtract from `value_to_self`); mirrors send_htlc → get_available_balances. -/
+def liveOut (st : OutState) : Bool :=
+  !(st == .awaitingRemoteRevokeToRemove false || st == .awaitingRemovedRemoteRevoke false)
+
+def liveSum (n : Node) : Nat := ((n.outb.filter (fun h => liveOut h.st)).map (·.amt)).sum
+
 def evOk (s : Sys) : Ev → Bool
   | .sendRaa true => decide (s.pendA = []) || decide (s.a.raaSent < s.needRaaA)
   | .sendRaa false => decide (s.pendB = []) || decide (s.b.raaSent < s.needRaaB)
-  | .commit true adds fu fa => decide ((fu ++ fa).Nodup) && decide (adds.sum + (s.a.outb.map (·.amt)).sum ≤ s.a.valueToSelf)
-  | .commit false adds fu fa => decide ((fu ++ fa).Nodup) && decide (adds.sum + (s.b.outb.map (·.amt)).sum ≤ s.b.valueToSelf)
+  | .commit true adds fu fa => decide ((fu ++ fa).Nodup) && decide (adds.sum + liveSum s.a ≤ s.a.valueToSelf)
+  | .commit false adds fu fa => decide ((fu ++ fa).Nodup) && decide (adds.sum + liveSum s.b ≤ s.b.valueToSelf)
   | _ => true
 
 def stepG (s : Sys) (e : Ev) : Option Sys := if evOk s e then step s e else none
